@@ -54,6 +54,13 @@ def run(ctx, chk):
             chk.ob("R3.1", fn, "backend is reached only across a guard on (ic, mlen) whose refusing arm calls sodium_misuse()", ok,
                    loc=fn.loc(e.iid), detail="%d guard fact(s) on the path" % len(guards), path=None if ok else p,
                    key="R3.1 crypto_stream_chacha20_ietf_xor_ic guard")
+            kmax_ic = prog.K("crypto_stream_chacha20_ietf_MESSAGEBYTES_MAX")
+            iv = p.facts_before(e.idx).interval(MLEN) or (0, (1 << 64) - 1)
+            okl = iv[1] <= kmax_ic
+            chk.ob("R3.1-len", fn, "whatever ic is, the backend is reached only with mlen <= crypto_stream_chacha20_ietf_MESSAGEBYTES_MAX "
+                   "(%d): a longer request needs more than 2^32 blocks" % kmax_ic, okl, loc=fn.loc(e.iid),
+                   detail="path facts give mlen in [%d, %d] (the guard's unsigned subtraction wraps for mlen > 2^38)" % iv,
+                   path=None if okl else p, key="R3.1-len crypto_stream_chacha20_ietf_xor_ic mlen-unbounded")
             okf = e.args[2] == MLEN and e.args[4] == IC
             chk.ob("R3.1", fn, "the guarded (mlen, ic) are the values handed to the backend", okf, loc=fn.loc(e.iid),
                    key="R3.1 crypto_stream_chacha20_ietf_xor_ic forwarded")
